@@ -89,6 +89,9 @@ def run_case(seed, big=False):
     count(f"geo={c.meta['geo']}")
     count(f"int_line={c.int_line}")
     count(f"nspecies={len(c.species)}")
+    count(f"boxes with negative mass-fraction undershoots={c.meta.get('undershoot_boxes', 0) > 0}")
+    count(f"time spelled without a decimal point={'.' not in repr(float(c.time))}")
+    count(f"time is a whole number={float(c.time) % 1 == 0}")
     # a reference plotfile that only provides the species names
     refdir = None
     for k in range(2):
